@@ -2,14 +2,14 @@
 {
  "property": "C03",
  "standin": "B-layout",
- "bound": "generated test files through Example.run_inline: 23 statement layouts x 5 headers x 21 argument edits x 6 flag sets, LF/CRLF, formatter-clean and not clean (C03); 9 pyproject [tool.black] variants x 5 shapes x values around the line limit (C20); Is()/f-string/star-expression/nested-snapshot name inside list/tuple/dict/call at every position (C10); containers of hand-written element expressions, depth<=2, width<=4, random edit scripts + all sequence pairs over 3 symbols up to length 3 (C11)",
+ "bound": "generated test files through Example.run_inline: 23 statement layouts x 6 headers x 21 argument edits x 6 flag sets, LF/CRLF, formatter-clean and not clean (C03); 9 pyproject [tool.black] variants x 5 shapes x values around the line limit (C20); Is()/f-string/star-expression/nested-snapshot name inside list/tuple/dict/call at every position (C10); containers of hand-written element expressions, depth<=2, width<=4, random edit scripts + all sequence pairs over 3 symbols up to length 3 (C11)",
  "input": {
   "prop": "C03",
-  "name": "nonascii_left/future",
+  "name": "trailing_ws_formfeed/pagebreak",
   "flags": "create,fix",
-  "source": "from __future__ import annotations\nfrom inline_snapshot import snapshot\ndef test_a():\n    x = \"\u00e4\u00f6\u00fc\u20ac\"; assert \"\u00e4\ud83d\ude00\" == snapshot(\"\u00f6\")\n"
+  "source": "from inline_snapshot import snapshot\n\f\n# page two \u2028 same comment\nsep = 'a\u0085b'\ndef test_a():   \n    assert [1, 2] == snapshot()   \n\f\n\n\n\ndef test_b():\n    pass   \n"
  },
- "detail": "[C03 nonascii_left/future flags=create,fix] text outside the parentheses of the changed snapshot() calls differs at masked offset 129: before \u2026' x = \"\u00e4\u00f6\u00fc\u20ac\"; assert \"\u00e4\ud83d\ude00\" == snapshot(\\x00)\\n'  after \u2026' x = \"\u00e4\u00f6\u00fc\u20ac\"; assert \"\u00e4\ud83d\ude00\" == snapshot(\\x00)\\n\"\u00e4\ud83d\ude00\"'\n--- before ---\nfrom __future__ import annotations\nfrom inline_snapshot import snapshot\ndef test_a():\n    x = \"\u00e4\u00f6\u00fc\u20ac\"; assert \"\u00e4\ud83d\ude00\" == snapshot(\"\u00f6\")\n\n--- after ---\nfrom __future__ import annotations\nfrom inline_snapshot import snapshot\ndef test_a():\n    x = \"\u00e4\u00f6\u00fc\u20ac\"; assert \"\u00e4\ud83d\ude00\" == snapshot(\"\u00f6\")\n\"\u00e4\ud83d\ude00\""
+ "detail": "[C03 trailing_ws_formfeed/pagebreak flags=create,fix] [other] rewritten file is not valid Python: invalid syntax (test_something.py, line 6)\n--- before ---\nfrom inline_snapshot import snapshot\n\f\n# page two \u2028 same comment\nsep = 'a\u0085b'\ndef test_a():   \n    assert [1, 2] == snapshot()   \n\f\n\n\n\ndef test_b():\n    pass   \n\n--- after ---\nfrom inline_snapshot import snapshot\n\f\n# page two \u2028 same comment\nsep = 'a\u0085b'\ndef test_a():   \n [1, 2]   assert [1, 2] == snapshot()   \n\f\n\n\n\ndef test_b():\n    pass   \n"
 }
 """
 
@@ -62,7 +62,7 @@ def rerun_identity(src):
         inline_snapshot.snapshot = real
 
 import ast
-SRC = 'from __future__ import annotations\nfrom inline_snapshot import snapshot\ndef test_a():\n    x = "äöü€"; assert "ä😀" == snapshot("ö")\n'
+SRC = "from inline_snapshot import snapshot\n\x0c\n# page two \u2028 same comment\nsep = 'a\x85b'\ndef test_a():   \n    assert [1, 2] == snapshot()   \n\x0c\n\n\n\ndef test_b():\n    pass   \n"
 FLAGS = 'create,fix'
 CWD_FILES = {}
 files = {'test_something.py': SRC}
@@ -100,7 +100,7 @@ if black.format_str(lf, mode=mode) != lf:  # not formatter-clean: byte for byte 
 # finally the exact oracle of the stand-in (needs /verif on sys.path)
 sys.path.insert(0, '/verif')
 from bounded import b_layout
-CASE = {'prop': 'C03', 'name': 'nonascii_left/future', 'src': 'from __future__ import annotations\nfrom inline_snapshot import snapshot\ndef test_a():\n    x = "äöü€"; assert "ä😀" == snapshot("ö")\n', 'flags': 'create,fix', 'changed': [0], 'crlf': False, 'make_clean': False, 'mode_opts': {}, 'expect_green': True}
+CASE = {'prop': 'C03', 'name': 'trailing_ws_formfeed/pagebreak', 'src': "from inline_snapshot import snapshot\n\x0c\n# page two \u2028 same comment\nsep = 'a\x85b'\ndef test_a():   \n    assert [1, 2] == snapshot()   \n\x0c\n\n\n\ndef test_b():\n    pass   \n", 'flags': 'create,fix', 'changed': [0], 'crlf': False, 'make_clean': False, 'mode_opts': {}, 'expect_green': True}
 out = b_layout.eval_case(CASE)
 assert out['status'] != 'fail', out['detail']
 
